@@ -132,7 +132,7 @@ M.contract('xtuml.tools.OrderedSet.__init__@seq', [('self', OSET), ('iterable', 
 # ---- iteration
 M.contract('xtuml.tools.OrderedSet.__iter__', [('self', OSET)], kind='generator', yields=KEY,
            requires={'wf': 'wf(self)'},
-           ensures={'yields-view-in-order': 'result == self.view'}, modifies=[],
+           ensures={'yields-view-in-order': 'len(result) == len(self.view) and all(result[j] is self.view[j] for j in range(0, len(result)))'}, modifies=[],
            loops={0: Loop(inv={'prefix-yielded': 'len(_yielded) <= len(self.view) and all(_yielded[j] is self.view[j] for j in range(0, len(_yielded)))',
                                'cursor': 'curr is (self.nodes[len(_yielded)] if len(_yielded) < len(self.view) else self.end)',
                                'end': 'end is self.end'},
